@@ -132,7 +132,7 @@ VARIANTS = [
     fire('c12-revert-date', ['C12'], [(DT, "        return f'{value.year:04d}-{value.month:02d}-{value.day:02d}'", "        return value.strftime('%Y-%m-%d')")], 'FMT-LANG'),
     fire('c17-spacing-re', ['C17'], [(SP, r"re.compile(r'([ \t]+)|(\r*\n)')", r"re.compile(r'([ \t]+)|(\r?\n)')")], 'SPACING-RE'),
     fire('c17-collects-any', ['C17'], [(SP, "    while isinstance(token, Newline | Whitespace):", "    while token is not None and not isinstance(token, BlockCommentLike):" if False else "    while isinstance(token, base.RawTokenModel):")], 'SP-SEM'),
-    fire('c17-after-uses-first', ['C17'], [(SP, "            self.token_store.insert_after(self.last_token, tokens)", "            self.token_store.insert_after(self.first_token, tokens)")], 'SP-RANGE'),
+    fire('c17-after-uses-first', ['C17'], [(SP, "            self.token_store.insert_after(self.last_token, tokens)", "            self.token_store.insert_after(self.first_token, tokens)")], 'SP-ACC'),
     # ------------------------------------------------------------------ C11 / C20 / C14 / C15 / C18
     fire('c11-identity-transformer', ['C11'], [(BA, "        return self.clone(token_store, MappingTokenTransformer(token_map))", "        return self.clone(token_store, IDENTITY_TOKEN_TRANSFORMER)")], 'COPY-STORE'),
     fire('c11-clone-shares-child', ['C11'], [(RP, "            (item.clone(token_store, token_transformer) for item in self.items),", "            self.items,")], 'COVER-CLONE'),
@@ -320,3 +320,46 @@ ROUND4 = [
     silent('r4-twin-or-empty-default', ['C14', 'C10'], [(IC, "            {id(comment) for comment in comments} if comments is not None else None)", "            {id(comment) for comment in (comments or ())} if comments is not None else None)")]),
 ]
 VARIANTS += ROUND4
+
+SLOTSEM = [
+    fire('slot-decimal-truthy-update', ['C09'], [(VP, "    def __set__(self, instance: _U, value: Optional[decimal.Decimal]) -> None:\n        current = self._inner_property.__get__(instance)\n        if current is not None and value is not None:\n            current.value = value\n        else:",
+                                                  "    def __set__(self, instance: _U, value: Optional[decimal.Decimal]) -> None:\n        current = self._inner_property.__get__(instance)\n        if current is not None and value:\n            current.value = value\n        else:")], 'PRESENCE-TRUTH'),
+    fire('slot-string-getter-default', ['C09'], [(VP, "    def _get(self, instance: _U) -> Optional[str]:\n        s = self._inner_property.__get__(instance)\n        return s.value if s is not None else None\n    \n    def __set__(self, instance: _U, value: Optional[str]) -> None:\n        current = self._inner_property.__get__(instance)\n        if current is not None and value is not None:\n            current.value = value\n        else:\n            s = self._inner_type.from_value(value) if value is not None else None",
+                                                  "    def _get(self, instance: _U) -> Optional[str]:\n        s = self._inner_property.__get__(instance)\n        return s.value if s is not None else ''\n    \n    def __set__(self, instance: _U, value: Optional[str]) -> None:\n        current = self._inner_property.__get__(instance)\n        if current is not None and value is not None:\n            current.value = value\n        else:\n            s = self._inner_type.from_value(value) if value is not None else None")], 'SLOT-AGREE'),
+    fire('slot-indented-without-indent', ['C09'], [(VP, "            s = self._inner_type.from_value(value, indent=indent) if value is not None else None", "            s = self._inner_type.from_value(value) if value is not None else None")], 'SLOT-AGREE'),
+    silent('slot-twin-early-returns', ['C09'], [(VP, "        if current is not None and value is not None:\n            current.value = value\n        else:\n            s = self._inner_type.from_value(value) if value is not None else None\n            self._inner_property.__set__(instance, s)\n\n\nclass optional_indented_string_property",
+                                                 "        if value is None:\n            self._inner_property.__set__(instance, None)\n            return\n        if current is not None:\n            current.value = value\n            return\n        self._inner_property.__set__(instance, self._inner_type.from_value(value))\n\n\nclass optional_indented_string_property")]),
+]
+VARIANTS += SLOTSEM
+
+COPYSEM = [
+    fire('copy-shallow-token', ['C11'], [(BA, "            new_token = copy.deepcopy(token)\n", "            new_token = copy.copy(token)\n")], 'COPY-STORE'),
+    fire('copy-map-keyed-by-copy', ['C11'], [(BA, "            token_map[id(token)] = new_token", "            token_map[id(new_token)] = new_token")], 'COPY-STORE'),
+    fire('copy-store-of-originals', ['C11'], [(BA, "            tokens.append(new_token)\n", "            tokens.append(token)\n")], 'COPY-STORE'),
+    fire('copy-span-from-store-start', ['C11'], [(BA, "        for token in self._token_store.iter(self.first_token, self.last_token):\n            new_token = copy.deepcopy(token)", "        for token in self._token_store.iter(self._token_store.get_first(), self.last_token):\n            new_token = copy.deepcopy(token)")], 'COPY-STORE'),
+    silent('copy-twin-pairs', ['C11'], [(BA, "        tokens: list[RawTokenModel] = []\n        token_map: dict[int, RawTokenModel] = {}\n        for token in self._token_store.iter(self.first_token, self.last_token):\n            new_token = copy.deepcopy(token)\n            tokens.append(new_token)\n            token_map[id(token)] = new_token\n",
+                                         "        copied = [(token, copy.deepcopy(token)) for token in self._token_store.iter(self.first_token, self.last_token)]\n        tokens = [new_token for _, new_token in copied]\n        token_map = {id(token): new_token for token, new_token in copied}\n")]),
+]
+VARIANTS += COPYSEM
+
+DROPSEM = [
+    fire('drop-many-ascending', ['C10'], [(PR, "        indexes = sorted(indexes, reverse=True)\n        count = itertools.count()\n        ranges = (\n            list(r) for _, r in itertools.groupby(indexes, key=lambda i: i + next(count))\n        )\n        for r in ranges:\n            self._del_tokens(r[-1], r[0] + 1)",
+                                           "        indexes = sorted(indexes)\n        count = itertools.count()\n        ranges = (\n            list(r) for _, r in itertools.groupby(indexes, key=lambda i: i - next(count))\n        )\n        for r in ranges:\n            self._del_tokens(r[0], r[-1] + 1)")], 'VIEW-WRITE'),
+    fire('drop-many-items-first', ['C10'], [(PR, "        for r in ranges:\n            self._del_tokens(r[-1], r[0] + 1)\n        self._repeated.items[:] = (\n            item for i, item in enumerate(self._repeated.items) if i not in indexes\n        )\n",
+                                             "        ranges = list(ranges)\n        self._repeated.items[:] = (\n            item for i, item in enumerate(self._repeated.items) if i not in indexes\n        )\n        for r in ranges:\n            self._del_tokens(r[-1], r[0] + 1)\n")], 'VIEW-WRITE'),
+    fire('drop-many-run-off-by-one', ['C10'], [(PR, "            self._del_tokens(r[-1], r[0] + 1)", "            self._del_tokens(r[-1], r[0])")], 'VIEW-WRITE'),
+    silent('drop-many-twin-enumerate', ['C10'], [(PR, "        count = itertools.count()\n        ranges = (\n            list(r) for _, r in itertools.groupby(indexes, key=lambda i: i + next(count))\n        )",
+                                                  "        ranges = (\n            [i for _, i in r]\n            for _, r in itertools.groupby(enumerate(indexes), key=lambda p: p[1] + p[0])\n        )")]),
+]
+VARIANTS += DROPSEM
+
+ES = 'autobean_refactor/models/escaped_string.py'
+ESCSEM = [
+    fire('esc-unescape-drops-unknown', ['C12'], [(ES, "            lambda c: cls.__UNESCAPE_MAP.get(c.group(1), c.group(1)),", "            lambda c: cls.__UNESCAPE_MAP.get(c.group(1), ''),")], 'ESC-TABLE'),
+    fire('esc-unescape-keeps-backslash', ['C12'], [(ES, "            lambda c: cls.__UNESCAPE_MAP.get(c.group(1), c.group(1)),", "            lambda c: cls.__UNESCAPE_MAP.get(c.group(1), c.group(0)),")], 'ESC-TABLE'),
+    fire('esc-escape-no-backslash', ['C12'], [(ES, "            lambda c: '\\\\' + cls.__ESCAPE_MAP[c.group(0)],", "            lambda c: cls.__ESCAPE_MAP[c.group(0)],")], 'ESC-TABLE'),
+    fire('esc-map-two-same-images', ['C12'], [(ES, "        '\\f': 'f',", "        '\\f': 'n',")], 'ESC-TABLE'),
+    silent('esc-twin-unescape-local-def', ['C12'], [(ES, "        return re.sub(\n            cls.__UNESCAPE_PATTERN,\n            lambda c: cls.__UNESCAPE_MAP.get(c.group(1), c.group(1)),\n            s)",
+                                                     "        def replace(c: re.Match[str]) -> str:\n            escaped = c.group(1)\n            if escaped in cls.__UNESCAPE_MAP:\n                return cls.__UNESCAPE_MAP[escaped]\n            return escaped\n\n        return re.sub(cls.__UNESCAPE_PATTERN, replace, s)")]),
+]
+VARIANTS += ESCSEM
